@@ -619,7 +619,7 @@ func TestC09(t *testing.T) {
 
 func init() {
 	Describe("C09",
-		"cases: (a) an import list (0-4 shared tables with gaps, duplicate and shadowing text, declared max_id below / equal / above the table size, catalog state exact / other version / missing) plus a local symbol list, built three ways (NewLocalSymbolTable+Adjust, a Reader over a text declaration, a Reader over a binary declaration) and compared with an independent model of the ID space for every ID in 0..MaxID+2 and every text of an alphabet: exhaustive small grid + random; (b) a state machine over SymbolTableBuilder (Add, Build, lookups, with every earlier Build() snapshot re-checked after every step); (c) catalogs built from arbitrary multisets of tables (FindExact / FindLatest) and Adjust to every max_id. Non-trivial: an import whose max_id differs from its size or is not an exact catalog match, duplicate / shadowing text, a builder run with a Build and a re-Add, a catalog with >= 2 tables. Distinct by digest(case).",
+		"cases: (a) an import list (0-4 shared tables with gaps, duplicate and shadowing text, declared max_id below / equal / above the table size, catalog state exact / other version / missing) plus a local symbol list, built three ways (NewLocalSymbolTable+Adjust, a Reader over a text declaration, a Reader over a binary declaration) and compared with an independent model of the ID space for every ID in 0..MaxID+2 and every text of an alphabet: exhaustive small grid + random; every text-built table is followed by $n for n = max+1, max+2, 2^31, 2^63-1, 2^63, 2^64-1, 2^64, 10^20 and max+1 with leading zeros, as value / annotation / field name / list element / s-expression element, each of which the reader must refuse; (b) a state machine over SymbolTableBuilder (Add, Build, lookups, with every earlier Build() snapshot re-checked after every step); (c) catalogs built from arbitrary multisets of tables (FindExact / FindLatest) and Adjust to every max_id. Non-trivial: an import whose max_id differs from its size or is not an exact catalog match, duplicate / shadowing text, a builder run with a Build and a re-Add, a catalog with >= 2 tables. Distinct by digest(case).",
 		"oracle: independent ID-space model (refbin.BuildLocal)",
 		"the empty text is exempt from lookup-by-name assertions (ion-go never indexes it; by-ID results are still checked), and a slot with undefined text may be reported either as not found or as found with empty text (ion-go's representation)",
 	)
